@@ -263,6 +263,28 @@ def shard_fn(sh):
     return st
 
 
+def judge_apply_rules(st, tier):
+    """depccg.grammar.apply_rules (the cached helper): same list on every call, only pairs in the seen set give results, cache does not leak between pairs"""
+    from depccg.grammar import apply_rules
+    for lang, mod in (('en', en), ('ja', ja)):
+        inv = PR.inventory('en' if lang == 'en' else 'ja')[:40 if tier == 'quick' else 120]
+        seen = {(x, y) for i, x in enumerate(inv) for j, y in enumerate(inv) if (i + j) % 3 == 0}
+        cache = {}
+        for x in inv:
+            for y in inv:
+                st.count('apply_rules_cases')
+                want = [r for r in (c(x, y) for c in mod.combinators) if r is not None] if (x, y) in seen else []
+                try:
+                    a = apply_rules(x, y, seen, mod.combinators, cache)
+                    b = apply_rules(x, y, seen, mod.combinators, cache)
+                except Exception as e:
+                    st.violation(f'apply_rules/raises/{lang}', f'apply_rules({x}, {y}) raised {e!r}', lang=lang, x=str(x), y=str(y), engine='c14_apply_rules')
+                    continue
+                if sig(a) != sig(want) or sig(b) != sig(want):
+                    st.violation(f'apply_rules/result/{lang}', f'apply_rules({x}, {y}) gave {[str(r.cat) for r in a]} / {[str(r.cat) for r in b]}, expected {[str(r.cat) for r in want]}',
+                                 lang=lang, x=str(x), y=str(y), engine='c14_apply_rules')
+
+
 def digest_main():
     """results of a fixed pair list without the seam, as a digest: must not depend on PYTHONHASHSEED"""
     h = hashlib.sha256()
@@ -334,6 +356,9 @@ def check(tier, seed):
     t0 = time.time()
     shards = core.rotate(plan(tier), seed)
     st = core.pmap(shard_fn, shards)
+    install_seam()
+    judge_apply_rules(st, tier)
+    remove_seam()
     seeds = seed_conformance(st, tier)
     st.sample(dict(x='S[X]/(S[X]\\S[X])', y='S[dcl]\\S[b]', orders='every permutation of the shared-variable feature keys {b0, b1}',
                    result=[str(r.cat) for r in en.apply_binary_rules(K.P('S[X]/(S[X]\\S[X])'), K.P('S[dcl]\\S[b]'))]))
